@@ -62,6 +62,8 @@ type Ctx struct {
 	initPoisoned          map[*MapV]bool
 	syllableConvertFolded bool
 	playPipelineChecked   bool
+	lexProduced           map[string]bool
+	lexFold               *foldVerdict
 	chordPipeFold         *foldVerdict
 	descKeyFold           *foldVerdict
 	descFold              *foldVerdict
